@@ -21,7 +21,8 @@ def run_scenario(sc):
     from dali.sequences import Commissioning
     n = len(sc["shorts"])
     inits = sc.get("inits") or ["DISABLED"] * n
-    bus = GearBus([Gear(short=s, store_ok=ok, init=it) for s, ok, it in zip(sc["shorts"], sc["storeOK"], inits)])
+    stuck = sc.get("stuck") or [False] * n
+    bus = GearBus([Gear(short=s, store_ok=ok, init=it, stuck=st) for s, ok, it, st in zip(sc["shorts"], sc["storeOK"], inits, stuck)])
     draws = list(sc["draws"])
     state = {"round": 0}
 
@@ -41,7 +42,7 @@ def run_scenario(sc):
     events, out = drive(gen, answer, cap)
     cfg = {"shorts": sc["shorts"], "storeOK": sc["storeOK"], "permitted": sc["permitted"],
            "readdress": sc["readdress"], "dryrun": sc["dryrun"], "rands": [0] * n, "groups": [[] for _ in range(n)],
-           "dts": [[] for _ in range(n)], "dtr0": 0, "inits": list(inits)}
+           "dts": [[] for _ in range(n)], "dtr0": 0, "inits": list(inits), "stuck": list(stuck)}
     return {"seq": "Commissioning", "cfg": cfg, "maxrounds": sc["maxrounds"], "ev": events,
             "out": {"exc": out["exc"]}, "scenario": sc}
 
@@ -192,6 +193,27 @@ def long_clash_scenarios(tier):
     return out
 
 
+def stuck_scenarios(tier, seed):
+    """re-addressing a bus on which one addressed unit cannot rewrite its address memory at all: it ignores the broadcast
+    'delete short address' as well as PROGRAM SHORT ADDRESS.  All 64 addresses are permitted (they never run out), so the
+    unit is reached and must make the sequence raise -- it must not be passed over while its address goes to another unit"""
+    rng = random.Random(seed * 7919 + 5)
+    out = []
+    for n in (2, 3, 4, 6) if tier == "quick" else (2, 3, 4, 5, 6, 9, 14):
+        for s in sorted({0, 1, n - 2}):
+            for where in range(n if tier == "thorough" else min(n, 3)):
+                shorts = [rng.choice([255, 255, 10 + rng.randrange(50)]) for _ in range(n)]
+                shorts[where] = s
+                store = [True] * n
+                store[where] = False
+                stuck = [k == where for k in range(n)]
+                draws = rng.sample(range(0x1000000), n)
+                out.append({"shorts": shorts, "storeOK": store, "stuck": stuck, "permitted": list(range(64)),
+                            "readdress": True, "dryrun": rng.random() < 0.15, "draws": [draws], "maxrounds": 1,
+                            "src": "stuck:%d:%d:%d" % (n, s, where)})
+    return out
+
+
 def run(tier, seed, replay=None):
     out = core.Outcome("C07", tier, seed)
     out.is_replay = replay is not None
@@ -235,6 +257,7 @@ def run(tier, seed, replay=None):
             scen += [py_scenario(seed, k) for k in range(npy)]
             scen += boundary_scenarios(tier, seed)
             scen += long_clash_scenarios(tier)
+            scen += stuck_scenarios(tier, seed)
         else:
             scen = [replay["case"]["scenario"]]
         recs = core.pmap(run_scenario, scen, chunksize=8)
